@@ -157,6 +157,11 @@ def generate(prop, rng, tier):
         ms = ["predict", "predict_proba"] if cat == "classifier" else ["predict"]
         calls = [{"m": rng.choice(ms), "which": rng.choice(["train", "test", "test"])}
                  for _ in range(rng.randint(3, 6))]
+    if cat == "series" and calls and rng.random() < 0.5:
+        # the same start and the same number of points, once contiguous and once thinned out
+        k = rng.randrange(len(calls))
+        twin = dict(calls[k], stride=2 if calls[k].get("stride", 1) == 1 else 1)
+        calls.insert(k + 1, twin)
     for c in calls:
         c["pickle_before"] = rng.random() < 0.15
     scen["calls"] = calls
